@@ -302,13 +302,56 @@ class Rendered(Facet):
         return run_rendered(desc)
 
 
+class Large(Facet):
+    """Sizes beyond the small-case bounds: dimensions with more than 2^15 / 2^16 items and arrays with more
+    than 2^15 / 2^16 / 2^17 entries built from small dimensions (index arithmetic must not depend on size)."""
+
+    name = "large"
+    exhaustive = True
+    shards = {"quick": 16, "thorough": 16}
+
+    def enumerate(self, tier):
+        shapes = [(32767,), (32768,), (32769,), (40000,), (3, 33000), (40, 30, 30), (200, 200), (14, 14, 14, 14), (2, 3, 40000)]
+        if tier == "thorough":
+            shapes += [(65535,), (65536,), (65537,), (70000,), (260, 260), (66000, 2), (50, 50, 60), (20, 20, 20, 20)]
+        for shape in shapes:
+            for layout in ("long-index", "long-columns-shuffled", "wide"):
+                if layout == "wide" and (len(shape) < 2 or shape[-1] > 300):
+                    continue
+                yield {"shape": list(shape), "layout": layout}
+
+    def run(self, desc):
+        shape = desc["shape"]
+        letters = list("abcd")[: len(shape)]
+        dims = [fd.Dimension(letter=l, name=gen.NAMES[l], items=[1000 * (k + 1) * 100 + i for i in range(n)] if k % 2 == 0 else [f"{l}{i}" for i in range(n)], dtype=int if k % 2 == 0 else str) for k, (l, n) in enumerate(zip(letters, shape))]
+        ds = fd.DimensionSet(dim_list=dims)
+        vals = np.arange(1.0, float(np.prod(shape)) + 1.0).reshape(shape)
+        x = fd.FlodymArray(dims=ds, values=vals)
+        if desc["layout"] == "long-index":
+            df = x.to_df()
+        elif desc["layout"] == "wide":
+            df = x.to_df(dim_to_columns=letters[-1], index=False)
+        else:
+            df = x.to_df(index=False)
+            order = np.random.RandomState(len(df)).permutation(len(df))
+            df = df.iloc[order]
+        # export: every label tuple once with its value (checked through the frame's own columns)
+        if desc["layout"] != "wide":
+            flat = df.reset_index() if desc["layout"] == "long-index" else df
+            require(len(flat) == vals.size and not flat[[d.name for d in dims]].duplicated().any(), "to_df-rows", f"shape {shape}")
+        y = fd.FlodymArray.from_df(dims=ds, df=df)
+        bad = int(np.sum(y.values != vals))
+        require(bad == 0, "large-roundtrip-differs", f"shape {shape} layout {desc['layout']}: {bad} of {vals.size} entries differ, first at flat index {int(np.argmax((y.values != vals).reshape(-1)))}")
+        return {"nontrivial": True, "classes": [f"entries>2^{int(np.log2(vals.size))}", f"maxdim>2^{int(np.log2(max(shape)))}"]}
+
+
 class Weak(Facet):
     name = "weak"
     examples = {"quick": 3000, "thorough": 150000}
     shards = {"quick": 16, "thorough": 16}
 
     def strategy(self, tier):
-        return c12.fault_cases(max_faults=3)
+        return c12.fault_cases(max_faults=4)
 
     def run(self, desc):
         d = dict(desc, entry="from_df")
@@ -327,7 +370,7 @@ Prop(
     "single-item dims left out, wide over any dim incl. untyped int, values coinciding with a named int dimension's items. weak: "
     "every faulty frame of C12's generator - each non-zero imported entry must come from the unique row with its labels. "
     "Non-trivial = >= 2 dims with a row/column permutation, a wide layout, or a left-out single-item dim.",
-    [Export(), RoundTrip(), Rendered(), Weak()],
+    [Export(), RoundTrip(), Rendered(), Large(), Weak()],
     assumptions=[
         "wide layouts need >= 2 dims; sparse frames are imported with allow_missing_values=True and wide sparse frames keep every item column",
         "inferred-by-items columns precede the value column and the value set differs from every item set (the importer documents that it stops at the first non-matching column)",
